@@ -365,8 +365,16 @@ impl Shared {
                                     });
                                     let fname = field.unwrap_or_else(|| "length".into());
                                     let generic: String = fname.chars().filter(|c| !c.is_ascii_digit()).collect();
-                                    if fname.starts_with("pub") {
-                                        v.push(Viol::new(format!("C08:child-derivation:{}", generic), format!("embedded child public key field {} differs from the hash-sigs child seed/identifier derivation ({} counter {})", fname, self.cfg.label(), info.counter)));
+                                    // every embedded child public key against the hash-sigs derivation (C08),
+                                    // wherever the first difference happens to be
+                                    if let (Ok(pa), Ok(pb)) = (m.parse_hss_sig(sig), m.parse_hss_sig(msig)) {
+                                        for (lvl, ((ao, al), (bo, bl))) in pa.pubs.iter().zip(pb.pubs.iter()).enumerate() {
+                                            let (a, b) = (&sig[*ao..*ao + *al], &msig[*bo..*bo + *bl]);
+                                            if a.len() == b.len() && a != b {
+                                                let what = if a[8..24] != b[8..24] { "I" } else if a[24..] != b[24..] { "root" } else { "type" };
+                                                v.push(Viol::new(format!("C08:child-derivation:pub.{}", what), format!("embedded public key of level {} ({}) differs from the hash-sigs child seed/identifier derivation ({} counter {})", lvl + 1, what, self.cfg.label(), info.counter)));
+                                            }
+                                        }
                                     }
                                     v.push(Viol::new(format!("C07:bytes-differ:{}", generic), format!("signature differs from the independent RFC 8554 signer first in field {} ({} counter {})", fname, self.cfg.label(), info.counter)));
                                 }
